@@ -479,9 +479,34 @@ def trr_head_size(ctx):
                 "the first header of a growing file is read when only part of it is on disk", construct=f"TRR_HEAD_SIZE = {short(e, 60)}")
 
 
+def line_index_alignment(ctx, f):
+    """The role of a line is its enumerate index modulo the block size: every line taken from
+    the file advances the index by exactly one *and* is classified in the same iteration. A
+    `continue` (a line dropped while the index moves on) or a second read of the file inside the
+    loop body shifts every following line of that call into the wrong role."""
+    rid = "R-13.7"
+    loop, _idx, _line = _line_loop(f)
+    if loop is None:
+        raise AnalysisError(f"R-13.7: line loop of {f.name} not found")
+    conts = [n for n in ast.walk(loop) if isinstance(n, ast.Continue)]
+    extra = [c for st in loop.body for c in ast.walk(st) if isinstance(c, ast.Call) and isinstance(c.func, ast.Attribute) and c.func.attr in ("readline", "readlines", "read", "__next__") or (isinstance(c, ast.Call) and isinstance(c.func, ast.Name) and c.func.id == "next")]
+    uses_mod = any(isinstance(b, ast.BinOp) and isinstance(b.op, ast.Mod) for b in ast.walk(loop))
+    if not uses_mod:
+        raise AnalysisError(f"R-13.7: {f.name} does not classify lines by index modulo block size (rule not applicable - re-read the reader)")
+    if conts:
+        for c in conts:
+            ctx.bad(rid, c, f"{f.name}: a line is skipped with `continue` while the enumerate index advances: every following line of this call is classified one position off (the atom-count line is taken for a header, int('ITEM:') raises / a frame is mis-parsed)", construct=f"{f.name}: continue in the line loop")
+    if extra:
+        for c in extra:
+            ctx.bad(rid, c, f"{f.name}: the loop body reads from the file itself: lines consumed here are not counted by the index", construct=f"{f.name}: extra read in the line loop")
+    if not conts and not extra:
+        ctx.ok(rid, loop, f"{f.name}: every consumed line advances the index once and is classified or ends the call (no continue, no extra read)")
+
+
 def run(ctx):
     ctx.rule("R-13.6", "line-index arithmetic never divides by a block size that still holds its zero initialiser (no exception on a partial first line)", floor=1)
     ctx.rule("R-13.5", "the byte count that gates the first TRR header read covers the largest header (struct formats of read_trr_header, double precision)", floor=1)
+    ctx.rule("R-13.7", "text readers: every line taken from the file advances the line index once and is classified by it (no `continue`, no extra read inside the line loop)", floor=2)
     ctx.rule("R-13.1", "every parse of current-line text is dominated by a completeness guard (newline / sentinel) whose failing edge returns without committing", floor=6)
     ctx.rule("R-13.2", "the read position is committed only under the frame-complete condition (or the documented lone-newline resync)", floor=3)
     ctx.rule("R-13.3", "TRR reads while mdrun runs are dominated by fresh size guards; bytes_read advances by the returned counts", floor=3)
@@ -494,11 +519,14 @@ def run(ctx):
         ctx.attempt(text_reader, ctx, f)
         ctx.attempt(handed_out_buffers, ctx, "R-13.4", f, "returned frame owns its data")
         ctx.attempt(zero_block_size, ctx, f)
+        ctx.attempt(line_index_alignment, ctx, f)
     ctx.attempt(trr_reader, ctx)
     ctx.attempt(trr_head_size, ctx)
 
 
 VARIANTS = [
+    B("c13-lammps-lone-newline-continue", ENGPARTS, "            reader_class.previous_position = reader_class.current_position\n            reader_class.current_position = reader_class.file_object.tell()\n            return trajectory, box\n        spl = line.split()", "            reader_class.previous_position = reader_class.current_position\n            reader_class.current_position = reader_class.file_object.tell()\n            continue\n        spl = line.split()", "R-13.7", control=True, why="seeded C13_d"),
+    B("c13-xyz-skips-comment-line-by-read", ENGPARTS, "        if i % block_size > 1:", "        if i % block_size == 1:\n            reader_class.file_object.readline()\n        if i % block_size > 1:", "R-13.7"),
     B("c13-xyz-atoms-fieldcount-only", ENGPARTS, 'if len(spl) != 4 or line[-1] != "\\n":', "if len(spl) != 4:", "R-13.1", control=True, why="pre-fix D3"),
     B("c13-xyz-natoms-unguarded", ENGPARTS, '            if not spl or line[-1] != "\\n":\n                return trajectory\n            N_atoms = int(spl[0])', '            if not spl:\n                return trajectory\n            N_atoms = int(spl[0])', "R-13.1"),
     B("c13-lammps-natoms-unguarded", ENGPARTS, '            if not spl or line[-1] != "\\n":\n                return trajectory, box', "            if not spl:\n                return trajectory, box", "R-13.1"),
